@@ -6,8 +6,9 @@ WT=/tmp/wt-verify
 OUT=/verif/notes/fix-commits-verified.txt
 git -C /repo worktree remove --force $WT 2>/dev/null
 git -C /repo worktree add -q --detach $WT cdb5b60 || exit 2
-: > $OUT
+touch $OUT; sed -i '/^done$/d' $OUT   # incremental: commits already listed with a result are kept
 for c in $(git -C /repo log --reverse --format=%h cdb5b60..HEAD); do
+  grep -q "^$c .*227 passed; 52 failed" $OUT && continue
   git -C $WT checkout -q --detach $c
   res=$(cd $WT && CARGO_TARGET_DIR=/tmp/wt-verify-target cargo test --workspace --no-fail-fast --offline 2>&1 | grep -E "^test result: (FAILED|ok)\. [0-9]+ passed" | head -1)
   echo "$c $(git -C /repo log --format=%s -1 $c | cut -c1-70) :: ${res:-BUILD-FAILED}" >> $OUT
